@@ -1,6 +1,7 @@
 # C07 (structural part): no observable effect without authentication; errors map to 'ignore'; no vacuous validation guard
 import re
 from sa.rules import *
+import rules.shared as shared
 from rules.netcode_common import *
 from rules.oblcommon import obl_rule
 
@@ -83,4 +84,5 @@ def rules(t, with_obl=True):
             r.sites += rr.sites
             for v in rr.violations: r.bad(v.key.split("|", 1)[1], v.site, v.msg)
     out.append(r)
+    out.append(shared.aead_open_rule(t, "C07.f"))
     return out
